@@ -15,7 +15,7 @@ RULE = ('edge inputs one at a time: (m) metadata values of undocumented kinds --
         'zero-length axes, 0-d data, nan/inf calibrations, an axis named _labels_; (p) PointLists with sub-array fields, 0-d data, '
         'unstructured data, PointListArrays with zero extents; empty trees and containers.  For each: outcome of save, and if it '
         'returned, outcome and content of a plain read; non-trivial = distinct inputs that save accepted')
-MODELLED = ['stream (m) is evaluated against the Coq metadata model; streams (n), (a), (p) are decided by the oracle on real behaviour']
+MODELLED = ['stream (m) is evaluated against the Coq metadata model; streams (n), (a), (p), (d) and (k: trees of downstream classes exposed by a hooked module, decided with the C06 oracle) are decided by the oracle on real behaviour']
 ASSUMPTIONS = []
 BADNAMES = ['', '.', '..', 'a/b', '/lead', 'trail/', 'a//b', 'nul\x00in', 'metadatabundle', 'data', 'dim0', 'x' * 5000, 'é/ü', ' ', 'a.b', './x', 'x']
 
@@ -78,6 +78,14 @@ def cases(seed, tier):
         for shape in ([2, 2], [3], [], [0, 2]):
             for how in ('array', 'bare', 'list'):
                 out.append({'stream': 'd', 'dtype': dt, 'shape': shape, 'how': how})
+    # trees holding instances of downstream classes (subclasses, composition nodes, Metadata subclasses) whose classes are all exposed
+    # by a hooked module: accepted by save => read returns them (many such trees per process, the same module names over and over)
+    from harness import classes as K
+    for _ in range(40 if tier == 'quick' else 1500):
+        sc = K.gen_e2e(rng)
+        sc['placements'] = [pl for pl in sc['placements'] if pl['how'] == 'top'][:1]
+        sc['stream'] = 'k'
+        out.append(sc)
     return out
 
 
@@ -138,6 +146,11 @@ def run_one(args):
     try:
         if c['stream'] == 'm':
             return M.run_value(c['v'], scratch, c['where'], c.get('alias', False), c.get('share_root', False))
+        if c['stream'] == 'k':
+            from harness import classes as K
+            r = K.run_e2e(c, scratch)
+            r['saved'] = r.get('save_exc') is None
+            return r
         if c['stream'] == 'n':
             nm, pos = c['name'], c['pos']
             def build():
@@ -321,6 +334,14 @@ def oracle(c, r):
             if c03.has_none_sentinel(c['v']):
                 return {'key': 'string-_None-reads-as-None', 'what': desc}
             return {'key': 'accepted-then-different-md', 'what': desc + f": came back as {str(r.get('back'))[:120]}"}
+        return None
+    if c['stream'] == 'k':
+        if not r['saved']:
+            return None
+        from harness.props import c06
+        e = c06.oracle(c, r)
+        if e:
+            return {'key': 'accepted-then-' + ('unreadable' if 'raised' in e['key'] else 'different') + '-downstream-classes', 'what': f"{e['key']}: {e['what']}"[:400]}
         return None
     if not r['saved']:
         return None
